@@ -61,7 +61,7 @@ def frame_entry(prog, mtu_ok):
                          'new_icon_kept': 'heap:port.icon_image' in retained,
                          'entry_icon_live': 'heap:cached.icon' in live,
                          'freed_weak': sum(1 for e, _ in effects(st, 'free') if e[1] == 'SEEN'),
-                         'link_stores': [(e[2], e[3]) for e, _ in effects(st, 'weak-store') if e[1] == 'SEEN' and link_overlap(fs, e[2], e[3])]})
+                         'link_stores': link_stores(fs, st)})
     nstates = sum(len(v) for v in res.values())
     return {'obs': obs, 'heap': heap, 'states': nstates, 'stats': {r: {'steps': s['steps'], 'loops': {k: {'induction': {str(a): b for a, b in v['induction'].items()}} for k, v in s['loops'].items()}} for r, s in stats.items()}}
 
@@ -71,6 +71,28 @@ def link_overlap(fs, off, n):
     from ..facts import WORD
     lo = fs.prec.field('nextProbe')[1]
     return off is None or (off < lo + WORD and lo < off + n)
+
+
+def link_stores(fs, st):
+    """Stores into the link field of an observation that is already in the list and stays there: (offset, size) of every
+    weak store into the summary node object SEEN that touches `nextProbe` and is not followed - in the same straight-line
+    piece of the trace (same loop iteration) - by the release of a list node (scrubbing a node right before it is freed
+    cuts nothing off)."""
+    out = []
+
+    def walk(tr):
+        tr = list(tr)
+        for i, e in enumerate(tr):
+            if e[0] == 'weak-store' and e[1] == 'SEEN' and link_overlap(fs, e[2], e[3]):
+                if not any(x[0] == 'free' and x[1] == 'SEEN' for x in tr[i + 1:]):
+                    out.append((e[2], e[3]))
+            elif e[0] == 'loop':
+                for it in e[2]:
+                    walk(it)
+            elif e[0] == 'last-iteration':
+                walk(e[1])
+    walk(st.trace)
+    return out
 
 
 def ctor_entry(prog):
